@@ -76,3 +76,32 @@ func c16ExitTwoIngress(same bool, tag string) {
 	verif_assert(d1.closed, tag+"/close-of-ingress-1-does-not-close-its-own-destination")
 	verif_assert(!d2.closed, tag+"/close-of-ingress-1-closes-the-tunnel-of-ingress-2")
 }
+
+// C17 next to it: after both ingress agents have closed their tunnels the exit holds no
+// connection record and no counter for them
+func c17ExitTwoIngress(same bool, tag string) {
+	_, all, _ := net.ParseCIDR("0.0.0.0/0")
+	h := NewHandler(HandlerConfig{AllowedRoutes: []*net.IPNet{all}}, identity.AgentID{1}, c19Writer{})
+	h.Start()
+	c19IsIP, c19IP = true, net.IP{10, 0, 0, 1}
+	c19Acks, c19Errs = 0, 0
+	p1, p2 := identity.AgentID{2}, identity.AgentID{3}
+	s1, s2 := verif_nondet_u64(), verif_nondet_u64()
+	verif_assume((s1 == s2) == same)
+	d1, d2 := &c16Conn{}, &c16Conn{}
+	c16Open(h, p1, s1, 11, d1)
+	c16Open(h, p2, s2, 12, d2)
+	verif_reach(tag + "/two-ingress")
+	if c19Acks != 2 {
+		return
+	}
+	h.HandleStreamClose(p1, s1)
+	verif_drain()
+	h.HandleStreamClose(p2, s2)
+	verif_drain()
+	verif_assert(h.ConnectionCount() == 0, tag+"/connection-counter-left-after-both-tunnels-closed")
+	verif_assert(d1.closed && d2.closed, tag+"/destination-connection-left-open-after-both-tunnels-closed")
+}
+
+func harnessC17ExitTwoIngress()       { c17ExitTwoIngress(false, "C17/exit") }
+func harnessC17ExitTwoIngressSameID() { c17ExitTwoIngress(true, "C17/exit-same-id") }
